@@ -625,7 +625,7 @@ def run(ctx: Ctx):
                 n_mirror_diff += 1
     # the upstream reference designs as a corpus: the certificate must hold for every process of each of them
     from .corpus import compile_corpus
-    corpus = compile_corpus(export_tcode)
+    corpus = compile_corpus(export_tcode, need_text=False)
     creqs, cwhere = [], []
     for item in corpus:
         for d in item["designs"]:
